@@ -148,6 +148,8 @@ def run(ctx):
         ctx.extra['hash_iterations_seen'] += int(any_hash)
         oks = [r for r in res if r[1] == 'ok']
         ctx.vacuity_witness('purity assertions reachable', oks[0][0])
+    # ---------------------------------------------------------------- (i') vertex input structs whose sort / dedup keys may tie
+    vertex_family(ctx, seen)
     # ---------------------------------------------------------------- (ii') history independence under a changing environment
     history_check(ctx, seen)
     # ---------------------------------------------------------------- concrete fixtures: twice in one state + natively across processes / threads
@@ -163,7 +165,89 @@ def run(ctx):
     ctx.extra['violations_by_rule'] = seen
 
 
+VSRC_T = '''struct VA { @location(%du) a: vec4<f32>, @location(%du) b: f32 }
+struct VB { @location(%du) c: vec2<f32> }
+struct VC { @builtin(vertex_index) i: u32, @builtin(instance_index) j: u32 }
+@vertex fn v0(a: VA, c: VC) -> @builtin(position) vec4<f32> { return a.a; }
+@vertex fn v1(b: VB) -> @builtin(position) vec4<f32> { return vec4<f32>(b.c, 0.0, 1.0); }
+@vertex fn v2(b: VB, a: VA) -> @builtin(position) vec4<f32> { return a.a; }
+'''
+VLOCATED = [('VA', 0), ('VA', 1), ('VB', 0)]
+
+
+def vsrc(locs=(0, 1, 0)):
+    return VSRC_T % tuple(locs)
+
+
+def vertex_family(ctx, seen):
+    """several vertex entries sharing input structs; every @location is symbolic (all of u32, distinct within a struct), so keys that
+    order or deduplicate the structs (name, first location, member count ...) can tie; two of the structs carry builtins only"""
+    S, c = ctx.S, ctx.S.conv
+    src = vsrc()
+    d = S.dump(src)
+    module = c.module(d)
+    H = {t['name']: i for i, t in enumerate(d['module']['types']) if t['name']}
+    types = c.get(module, 'types').fields[0].items
+    locs = []
+    for sname, mi in VLOCATED:
+        l = z3.BitVec(f'{sname}_m{mi}_location', 32)
+        c.get(c.get(types[H[sname]], 'inner').fields[0].items[mi], 'binding').fields[0].fields[0] = l
+        locs.append(l)
+    env = env_passthrough(module, src)
+    info = {}
+
+    def go(it):
+        it.env['hash_iterated'], it.env['impure_reads'] = [], []
+        a = it.call('create_shader_module_inner', [src, none(), write_options(S.conv)])
+        info[len(info)] = (list(it.env['hash_iterated']), list(it.env['impure_reads']))
+        return tup(a, a)        # one call per path here: the same-state second call is checked on the usage-graph family above
+    res = ctx.explore('create_shader_module_inner/vertex-structs-symbolic-locations', go, assume=[locs[0] != locs[1]], env=env,
+                      anchors=['create_shader_module_inner', 'get_vertex_input_structs', 'vertex_struct_methods'], timeout_s=900)
+    groups = []
+    for k, (pc, kind, out, _) in enumerate(res):
+        hashed, impure_reads = info.get(k, ([], []))
+        ctx.queries['discharged'] += 1
+        if kind != 'ok':
+            ctx.queries['unsat'] += 1
+            continue
+        a, b = out.fields
+        ca = T.canon(a.fields[0].toks) if a.disc == 0 else ('err', a.fields[0].variant)
+        cb = T.canon(b.fields[0].toks) if b.disc == 0 else ('err', b.fields[0].variant)
+        if ca != cb or impure_reads:
+            ctx.queries['sat'] += 1
+            key = 'C18/vertex: second call differs'
+            seen[key] = seen.get(key, 0) + 1
+            if seen[key] == 1:
+                m = ctx.witness(pc)
+                w = vsrc([model_value(m, l) for l in locs])
+                rep, det = native_hash(ctx, w, {})
+                ctx.report(key, 'a second call in the same state returns different tokens' if ca != cb else f'the call reads {impure_reads}', det, rep, det)
+            continue
+        ctx.queries['unsat'] += 1
+        groups.append((pc, ca, hashed))
+    for i in range(len(groups)):
+        for j in range(i):
+            if groups[i][1] == groups[j][1]:
+                continue
+            ctx.queries['discharged'] += 1
+            pci = [x for x in groups[i][0] if not mentions_hash(x)]
+            pcj = [x for x in groups[j][0] if not mentions_hash(x)]
+            m = ctx.check(pci + pcj, z3.BoolVal(True))
+            if m is None:
+                continue
+            key = 'C18/hash-order (vertex structs)'
+            seen[key] = seen.get(key, 0) + 1
+            if seen[key] == 1:
+                lv = [model_value(m, l) for l in locs]
+                w = vsrc(lv)
+                rep, det = native_hash(ctx, w, {})
+                ctx.report(key, f'output depends on hash iteration order ({groups[i][2] or groups[j][2]}) for vertex structs with locations {lv}', det, rep, det)
+    oks = [r for r in res if r[1] == 'ok']
+    ctx.vacuity_witness('vertex-struct purity assertions reachable', oks[0][0])
+
+
 def native(ctx, srcs=None):
+    srcs = list(srcs or [open(f).read() for f in sorted(glob.glob('/repo/wgsl_to_wgpu/src/data/bindgroup/*.wgsl'))]) + [vsrc(), vsrc((1, 0, 1))]
     rep, det = native_purity(ctx, srcs)
     if rep:
         ctx.report('C18/native', f'real build is not a function of its input: {det.get("first")}', det, True, det)
